@@ -154,7 +154,14 @@ func (a *act) val(v ssa.Value, st *State) Val {
 }
 
 func (fx *FX) fnConst(fn *ssa.Function) string {
-	return fx.ctx.Declare("fn!"+FuncKey(fn), SFn)
+	name := quoteSym("fn!" + FuncKey(fn))
+	first := !fx.ctx.declared[name]
+	c := fx.ctx.Declare("fn!"+FuncKey(fn), SFn)
+	if first {
+		// a declared function used as a value is not the nil function value
+		fx.ctx.Assert(Not(Eq(c, "fn!nil")))
+	}
+	return c
 }
 
 // ---------- memory ----------
